@@ -203,6 +203,8 @@ FlattenEv(e) ==
      /\ UNCHANGED <<env, applied, nobs>>
 
 \* -------------------------------------------------------------------- Obs
+\* observations other than the full battery carry no data to judge; their effect (none is allowed) shows in later batteries
+LightObsEv(e) == UNCHANGED <<heap, env, applied, flats, fails, nobs>>
 ObsEv(e) ==
   LET known == e.c \in DOMAIN heap
       cl == IF known THEN ObsClausesMarked(heap, env, e.c, e.snap, [applied |-> e.c \in applied, implicit |-> e.implicit]) ELSE {Fail("C02.unknown_circuit", e.c, <<>>)}
@@ -233,7 +235,8 @@ Step ==
          [] e.ev = "CopyCirc" -> CopyCircEv(e)
          [] e.ev = "Apply"    -> ApplyEv(e)
          [] e.ev = "Flatten"  -> FlattenEv(e)
-         [] e.ev = "Obs"      -> ObsEv(e)
+         [] e.ev = "Obs" /\ e.what = "full" -> ObsEv(e)
+         [] e.ev = "Obs" /\ e.what # "full" -> LightObsEv(e)
          [] e.ev \in {"SetDur", "SetRep", "Enter", "Leave"} -> EnvEv(e)
          [] e.ev = "Error"    -> ErrorEv(e)
          [] OTHER -> /\ fails' = fails \cup Tag({Fail("C00.unknown_event", e.ev, <<>>)}) /\ UNCHANGED <<heap, env, applied, flats, nobs>>
